@@ -43,7 +43,13 @@ const map<string, double> PREFIX_FACTORS = {{"y", 1.0e-24}, {"z", 1.0e-21}, {"a"
 
 string createId() {
     typedef boost::mt19937::result_type seed_type;
-    static boost::mt19937 ran(static_cast<seed_type>(std::time(0)));
+    // the clock alone is the same for every process started within one second (and repeats every 2^32 s):
+    // such processes drew identical id sequences; seed from the system entropy source as well
+    static std::random_device entropy;
+    static std::seed_seq seq{static_cast<seed_type>(std::time(0)), static_cast<seed_type>(entropy()),
+                             static_cast<seed_type>(entropy()), static_cast<seed_type>(entropy()),
+                             static_cast<seed_type>(entropy())};
+    static boost::mt19937 ran(seq);
     static boost::uuids::basic_random_generator<boost::mt19937> gen(&ran);
     boost::uuids::uuid u = gen();
     return boost::uuids::to_string(u);
